@@ -216,6 +216,19 @@ theorem lifecycle_ok (max mw : Nat) (script : List Outcome) (batches : List (Lis
       | false => exact ⟨h4 hs, rfl⟩)
   exact this.2.1.1
 
+/-- the post-condition of a whole history: ended actors are in phase `stopped` with the inbox
+    closed, live ones in phase `started`. -/
+theorem history_post (max mw : Nat) (script : List Outcome) (batches : List (List Msg)) :
+    LQ script.length (runHistory max mw script batches).1 :=
+  (lTriple script.length).runHistory max mw script batches
+    (by simp [LS, LBase, lcRun])
+    (by
+      intro s ⟨h1, h2, h3, h4⟩ ho
+      refine ⟨by omega, h1, h2, ?_⟩
+      cases hs : s.stopped with
+      | true => have := (h3 hs).2; rw [this] at ho; cases ho
+      | false => exact ⟨h4 hs, rfl⟩)
+
 /-- when the spawn returns, the acceptor is fine and the actor has either handled Started (alive) or
     has handled its final Stopped with the inbox closed — for every budget, chain, crash script and
     any sufficient fuel. -/
